@@ -8,9 +8,10 @@ CHECKS['C10'] = {
     'rule': 'grammar-directed manifests (1-4 streams, 1-5 blocks of 0-20 bytes incl. zero-length, file tokens at block-boundary '
             'alignments, escaped/backslash/non-ASCII names); non-trivial = a file token crosses a block boundary, or a zero-length '
             'block, or an escaped name; distinct = fingerprint of (manifest text, src, relocate)',
-    'assumptions': ['reference interpreter written from doc/architecture/manifest-format'],
+    'assumptions': ['reference interpreter written from doc/architecture/manifest-format', 'Python: _ranges.py and _normalize_stream.py are loaded by file path under a stub arvados package (Hypothesis, python3-vt)'],
     'units': [
         unit('gomanifest', 'manifest', '^TestVerifC10', {'shards': 6, 'checks': 600}, {'shards': 8, 'checks': 40000, 'timeout': 2400}, crash_is_violation=True),
         unit('loader', 'arvados', '^TestVerifC10', {'shards': 6, 'checks': 600}, {'shards': 8, 'checks': 40000, 'timeout': 2400}, crash_is_violation=True),
+        unit('python', 'py', None, {'shards': 2, 'checks': 1500}, {'shards': 8, 'checks': 40000, 'timeout': 2400}, kind='python', rapid=False, script='py/c10_ranges.py'),
     ],
 }
